@@ -147,7 +147,7 @@ func c03Wants(rs model.RowSet, keys []string) [][]string {
 }
 
 func runC03(run *common.Run) {
-	run.Rule = "case = one ReadRows with one RowSet (ranges with each bound unset/open/closed over the 7-key adversarial universe, optional explicit key, rows_limit) against one table content on one engine, result compared with the set-union model and the chunk-stream state machine. Enumerated sub-space: quick = all 289 single ranges (each bound unset / open / closed over the universe, or present with an empty key) x 8 key options x 4 limits x 3 tables, plus all ordered pairs of a 60-range stratified subset; thorough = ALL 289^2 range pairs x 8 key options (exhaustive for 'two ranges plus one key'). Non-trivial = result is a non-empty strict subset of the table, or an inverted range; distinct by (rowset, limit, table, engine). Further parts: duplicate/many-range sets, multi-message streams with limits at message boundaries and row-dropping filters, row sets of up to 1500 keys and 1100 ranges over a 3000-row table, a table of rows carrying 32 KiB - 1 MiB of values (byte thresholds crossed on the last cell of a row, mid-row and between rows), SampleRowKeys invariants on static tables and after every step of histories mixing SampleRowKeys with prefix drops, family drops, delete-all, row writes and row deletes."
+	run.Rule = "case = one ReadRows with one RowSet (ranges with each bound unset/open/closed over the 7-key adversarial universe, optional explicit key, rows_limit) against one table content on one engine, result compared with the set-union model and the chunk-stream state machine. Enumerated sub-space: quick = all 289 single ranges (each bound unset / open / closed over the universe, or present with an empty key) x 8 key options x 4 limits x 3 tables, all 512 key-only row sets over the universe plus two absent keys (ascending and descending, with and without limit) x 3 tables, plus all ordered pairs of a 60-range stratified subset; thorough = ALL 289^2 range pairs x 8 key options (exhaustive for 'two ranges plus one key'). Non-trivial = result is a non-empty strict subset of the table, or an inverted range; distinct by (rowset, limit, table, engine). Further parts: duplicate/many-range sets, multi-message streams with limits at message boundaries and row-dropping filters, row sets of up to 1500 keys and 1100 ranges over a 3000-row table, a table of rows carrying 32 KiB - 1 MiB of values (byte thresholds crossed on the last cell of a row, mid-row and between rows), SampleRowKeys invariants on static tables and after every step of histories mixing SampleRowKeys with prefix drops, family drops, delete-all, row writes and row deletes."
 	run.Assumptions = []string{"an END bound that is present with an empty key is not defined by the statement: 'no upper bound' and the literal reading (selects nothing) are both accepted, per bound mode; an empty START key selects everything under either reading", "inverted = start key > end key as raw bytes, both set"}
 	j := common.NewJournal("C03")
 	for ei, engine := range drive.Engines {
@@ -233,6 +233,37 @@ func runC03(run *common.Run) {
 				doCase("single", ei*1_000_000+i, w, tables[ti], rs, limits[li])
 			})
 			run.Count("single_range_reads", int64(total))
+		}
+		// Part A3: key-only row sets: every subset of the universe plus two absent keys (one of them byte-adjacent to a
+		// stored key), ascending and descending, with and without a limit, on every table [complete]
+		if run.WantSub("keys") {
+			pool := append(append([]string{}, c03U...), "zz", "a\x00\x00\x00")
+			sort.Strings(pool)
+			nsub := 1 << len(pool)
+			total := nsub * 2 * 2 * len(tables)
+			j.Begin(0, fmt.Sprintf("C03 keys engine=%s", engine))
+			parallelW(total, nw, func(i, w int) {
+				c := i
+				mask := c % nsub
+				c /= nsub
+				desc := c%2 == 1
+				c /= 2
+				limit := int64(c%2) * 2
+				c /= 2
+				var rs model.RowSet
+				for b, k := range pool {
+					if mask&(1<<b) != 0 {
+						rs.Keys = append(rs.Keys, k)
+					}
+				}
+				if desc {
+					for x, y := 0, len(rs.Keys)-1; x < y; x, y = x+1, y-1 {
+						rs.Keys[x], rs.Keys[y] = rs.Keys[y], rs.Keys[x]
+					}
+				}
+				doCase("keys", ei*1_000_000+i, w, tables[c], rs, limit)
+			})
+			run.Count("key_only_rowset_reads", int64(total))
 		}
 		// Part A2: pairs
 		if run.WantSub("pair") {
